@@ -141,7 +141,7 @@ func init() {
 		Run:        c19Run,
 		Batch:      func(tier string, n int) int { return 1 },
 		Rule: "generated family graphs, half of them with hostile features (source and individual pointers with path separators or equal to fixed page names, people and places named like fixed pages or collapsing to the same file key, same-name people, surnames starting with digits/symbols/multi-byte letters, empty names) x visibility x page-group subsets, published into a recording FileWriter by the race-built worker. " +
-			"monitors: plain file names; no name written twice; every href / location.href target (fragment stripped, external links excluded) is '#' or a written file; determinism differential (3 repetitions, jobs 1/2/8/16, seeded schedule perturbation at the pub.* hooks, publish(A) before publish(B) vs B alone); race-detector logs; FAULT ENUMERATION: a writer that fails at the k-th file for EVERY k x jobs 1/2/8 (Publish must return an error, with jobs=1 no WriteFile call may follow the failing one, Publish must return); every 3rd case the real 'gedcom publish' into a scratch directory (nothing created outside the output directory; identical to the library output). non-trivial = site with at least 5 files and one internal link; distinct by text + options",
+			"monitors: plain file names; no name written twice; every href / location.href target (fragment stripped, external links excluded) is '#' or a written file; determinism differential (3 repetitions, jobs 1/2/8/16, seeded schedule perturbation at the pub.* hooks, publish(A) before publish(B) vs B alone, the same document object re-published under a sequence of different options vs fresh decodes); race-detector logs; FAULT ENUMERATION: a writer that fails at the k-th file for EVERY k x jobs 1/2/8 (Publish must return an error, with jobs=1 no WriteFile call may follow the failing one, Publish must return); every 3rd case the real 'gedcom publish' into a scratch directory (nothing created outside the output directory; identical to the library output). non-trivial = site with at least 5 files and one internal link; distinct by text + options",
 		Floors: func(a *fw.Agg, tier string) []string {
 			var f []string
 			for _, k := range []string{"sites", "links-checked", "determinism-comparisons", "fault-injections", "after-other-document", "cli-runs", "hostile-documents"} {
@@ -397,6 +397,29 @@ func c19Run(c *fw.Ctx, i int) {
 				why = "two-places-with-the-same-key"
 			}
 			c.Violation("stale-across-publishes:"+why, fmt.Sprintf("publishing another document first changes the output: %s", clip(c19FirstDiff(base, s), 900)), payload)
+		}
+	}
+	// the same *Document published several times under different options in one
+	// process: each site must be what a fresh decode gives under those options
+	{
+		doc, err := gedcom.NewDocumentFromString(text)
+		if err == nil {
+			seq := []*html.PublishShowOptions{
+				groupsFromMask(0b111101, html.LivingVisibilityShow), // places off
+				allGroups(html.LivingVisibilityShow),
+				allGroups(html.LivingVisibilityHide),
+				groupsFromMask(0b111110, html.LivingVisibilityPlaceholder), // individuals off
+				opts(),
+			}
+			for k, o := range seq {
+				got := publishDoc(doc, o, 1+k%2*3, 0)
+				fresh, _ := publish(text, o, 1, 0)
+				c.Count("same-document-republished", 1)
+				if got.Err == nil && fresh != nil && fresh.Err == nil && c19Canon(got) != c19Canon(fresh) {
+					c.Violation("stale-across-publishes:same-document-other-options", fmt.Sprintf("publishing the same document object again under other options (step %d of the sequence places-off, all, hide, individuals-off, case options) gives a different site than a fresh decode under the same options: %s", k+1, clip(c19FirstDiff(fresh, got), 900)), payload)
+					break
+				}
+			}
 		}
 	}
 	// ---- fault enumeration ----
